@@ -1,0 +1,138 @@
+//go:build verif
+
+package encoding
+
+// Contracts for the gcv verifier (/verif). This file is compiled only with the build tag
+// `verif`; it contains structured comments (//@ ...) and ghost (specification-only)
+// functions. No production code calls anything declared here.
+
+// ---------------------------------------------------------------------------------------
+// Specification functions, written from the NDN packet format specification
+// (https://docs.named-data.net/NDN-packet-spec/current/tlv.html), not from the code.
+// ---------------------------------------------------------------------------------------
+
+// specTLLen is the size of an NDN-TLV variable-length number (TLV-TYPE / TLV-LENGTH):
+// 1 byte below 253, else a marker byte 0xFD/0xFE/0xFF followed by 2/4/8 bytes, shortest form.
+func specTLLen(x uint64) int {
+	switch {
+	case x <= 0xfc:
+		return 1
+	case x <= 0xffff:
+		return 3
+	case x <= 0xffffffff:
+		return 5
+	}
+	return 9
+}
+
+// specNatLen is the size of an NDN NonNegativeInteger (1, 2, 4 or 8 bytes, shortest).
+func specNatLen(x uint64) int {
+	switch {
+	case x <= 0xff:
+		return 1
+	case x <= 0xffff:
+		return 2
+	case x <= 0xffffffff:
+		return 4
+	}
+	return 8
+}
+
+// big-endian values of 2/4/8 bytes of b starting at o
+func specBE2(b []byte, o int) uint64 { return uint64(b[o])*256 + uint64(b[o+1]) }
+func specBE4(b []byte, o int) uint64 { return specBE2(b, o)*65536 + specBE2(b, o+2) }
+func specBE8(b []byte, o int) uint64 { return specBE4(b, o)*4294967296 + specBE4(b, o+4) }
+
+// specTLSize / specTLVal decode the variable-length number that starts at b[o].
+func specTLSize(b []byte, o int) int {
+	switch {
+	case b[o] <= 0xfc:
+		return 1
+	case b[o] == 0xfd:
+		return 3
+	case b[o] == 0xfe:
+		return 5
+	}
+	return 9
+}
+
+func specTLVal(b []byte, o int) uint64 {
+	switch {
+	case b[o] <= 0xfc:
+		return uint64(b[o])
+	case b[o] == 0xfd:
+		return specBE2(b, o+1)
+	case b[o] == 0xfe:
+		return specBE4(b, o+1)
+	}
+	return specBE8(b, o+1)
+}
+
+// specNatVal decodes a NonNegativeInteger occupying exactly n bytes at b[o].
+func specNatVal(b []byte, o int, n int) uint64 {
+	switch n {
+	case 1:
+		return uint64(b[o])
+	case 2:
+		return specBE2(b, o)
+	case 4:
+		return specBE4(b, o)
+	}
+	return specBE8(b, o)
+}
+
+// ---------------------------------------------------------------------------------------
+// primitives.go
+// ---------------------------------------------------------------------------------------
+
+//@ func (TLNum).EncodingLength
+//@   ensures result == specTLLen(uint64(v))
+
+//@ func (Nat).EncodingLength
+//@   ensures result == specNatLen(uint64(v))
+
+//@ func (TLNum).EncodeInto
+//@   requires len(buf) >= specTLLen(uint64(v))
+//@   modifies buf[*]
+//@   ensures result == specTLLen(uint64(v))
+//@   ensures specTLSize(buf, 0) == result && specTLVal(buf, 0) == uint64(v)
+//@   ensures unchangedExcept(buf, 0, result)
+
+//@ func (Nat).EncodeInto
+//@   requires len(buf) >= specNatLen(uint64(v))
+//@   modifies buf[*]
+//@   ensures result == specNatLen(uint64(v))
+//@   ensures specNatVal(buf, 0, result) == uint64(v)
+//@   ensures unchangedExcept(buf, 0, result)
+
+//@ func ParseTLNum
+//@   requires len(buf) >= 1 && len(buf) >= specTLSize(buf, 0)
+//@   ensures pos == specTLSize(buf, 0) && uint64(val) == specTLVal(buf, 0)
+
+//@ func ParseNat
+//@   ensures err == nil ==> (len(buf) == 1 || len(buf) == 2 || len(buf) == 4 || len(buf) == 8)
+//@   ensures err == nil ==> pos == len(buf) && uint64(val) == specNatVal(buf, 0, len(buf))
+//@   ensures err != nil ==> !(len(buf) == 1 || len(buf) == 2 || len(buf) == 4 || len(buf) == 8)
+
+// Round trip of the variable-length number: decoding what was encoded gives the value back
+// (a two-line lemma over the two contracts above, checked like any other function).
+//
+//@ func lemmaTLRoundTrip
+//@   requires len(buf) >= 9
+//@   modifies buf[*]
+//@   ensures result == v
+func lemmaTLRoundTrip(v TLNum, buf []byte) TLNum {
+	n := v.EncodeInto(buf)
+	r, _ := ParseTLNum(buf[:n])
+	return r
+}
+
+//@ func lemmaNatRoundTrip
+//@   requires len(buf) >= 8
+//@   modifies buf[*]
+//@   ensures result == v
+func lemmaNatRoundTrip(v Nat, buf []byte) Nat {
+	n := v.EncodeInto(buf)
+	r, _, _ := ParseNat(buf[:n])
+	return r
+}
